@@ -1203,79 +1203,116 @@ func blockAfterTrueEdge(in ssa.Instruction) *ssa.BasicBlock { return in.Block() 
 // ruleLinkPair: local write followed by remote write of same polarity with swapped (id,key).
 func ruleLinkPair(c *Ctx, rule string) {
 	p := c.P
-	type spec struct {
-		typ, fn  string
-		local    []string // TypedBucket methods on the local field bucket
-		remote   string   // method on otherField
-		swapArgs bool
+	// local write on this entity's field bucket -> the operation that must follow on the other side.
+	// Sites are found by role: every call of one of these TypedBucket methods inside a method of the two
+	// link collection types (their unexported helpers are expanded into the callers by the normalisation
+	// pass), the integrity checker excepted (it repairs one side on purpose; C09 covers it).
+	remoteOf := map[string]string{
+		"SetListEntry": "AddLink", "CheckAndSetListEntry": "AddLink",
+		"DeleteListEntry": "RemoveLink", "CheckAndDeleteListEntry": "RemoveLink",
+		"SetLinkCount": "setLinkCount", "IncrementLinkCount": "incrementLinkCount", "DecrementLinkCount": "decrementLinkCount",
 	}
-	specs := []spec{
-		{"linkCollectionImpl", "link", []string{"SetListEntry"}, "AddLink", true},
-		{"linkCollectionImpl", "checkAndLink", []string{"CheckAndSetListEntry"}, "AddLink", true},
-		{"linkCollectionImpl", "unlink", []string{"DeleteListEntry"}, "RemoveLink", true},
-		{"linkCollectionImpl", "checkAndUnlink", []string{"CheckAndDeleteListEntry"}, "RemoveLink", true},
-		{"rcLinkCollectionImpl", "setLinkCount", []string{"SetLinkCount"}, "setLinkCount", true},
-		{"rcLinkCollectionImpl", "incrementLinkCount", []string{"IncrementLinkCount"}, "incrementLinkCount", true},
-		{"rcLinkCollectionImpl", "decrementLinkCount", []string{"DecrementLinkCount"}, "decrementLinkCount", true},
+	keyArg := func(call ssa.CallInstruction) ssa.Value {
+		// (bucket, fieldType, key [, count])
+		args := call.Common().Args
+		for _, a := range args[1:] {
+			if sl, ok := a.Type().Underlying().(*types.Slice); ok && types.Identical(sl.Elem(), types.Typ[types.Byte]) {
+				return a
+			}
+		}
+		return nil
 	}
-	for _, s := range specs {
-		fn := p.SSAFunc(p.Method("boltz", s.typ, s.fn))
-		name := FnName(fn)
-		c.Analysed(name)
-		fi := ComputeFacts(fn)
-		otherFld := p.Field("boltz", s.typ, "otherField")
-		var local, remote ssa.CallInstruction
-		for _, call := range callsIn(fn) {
-			cal, _ := calleeOf(call.Common())
-			if cal == nil {
+	n := 0
+	for _, typ := range []string{"linkCollectionImpl", "rcLinkCollectionImpl"} {
+		named := p.Named("boltz", typ)
+		otherFld := p.Field("boltz", typ, "otherField")
+		for _, fn := range c.prodFuncs("boltz") {
+			root := fn
+			for root.Parent() != nil {
+				root = root.Parent()
+			}
+			if root.Signature.Recv() == nil || namedOf(root.Signature.Recv().Type()) != named || root.Name() == "CheckIntegrity" {
 				continue
 			}
-			for _, ln := range s.local {
-				if cal == tbMethod(c, ln) {
-					local = call
-				}
-			}
-			if cal.Name() == s.remote && len(call.Common().Args) > 0 {
-				if f, _ := loadedField(call.Common().Args[0]); sameVar(f, otherFld) {
-					remote = call
-				}
-			}
-		}
-		if local == nil || remote == nil {
-			c.Bad(rule, name, p.Pos(fn.Pos()), fmt.Sprintf("local write found: %v, opposite-side %s found: %v — the link would exist on one side only", local != nil, s.remote, remote != nil))
-			continue
-		}
-		ok, why := true, ""
-		// every possibly-successful return after the local write passes the remote write
-		ri := reachWithoutFrom(fn, local, func(in ssa.Instruction) bool { return in == ssa.Instruction(remote) })
-		ei := errorResultIndex(fn.Signature)
-		for _, r := range returnsOf(fn) {
-			reach := ri.entryReach[r.Block()] || (r.Block() == local.Block() && instrIndex(r) > instrIndex(local))
-			if reach && ri.ReachesSuccess(r, ei) {
-				// returning the holder's own error after it was found non-nil is a failure path
-				if isHolderErrReturn(fi, r, ei) {
+			var fi *FactInfo
+			loops := loopsOf(fn)
+			for _, call := range callsIn(fn) {
+				cal, _ := calleeOf(call.Common())
+				if cal == nil {
 					continue
 				}
-				ok, why = false, "a successful return at "+p.Pos(r.Pos())+" is reachable after the local write without the opposite-side "+s.remote
+				rname, isLocal := remoteOf[cal.Name()]
+				if !isLocal || cal != tbMethod(c, cal.Name()) {
+					continue
+				}
+				n++
+				name := FnName(fn)
+				c.Analysed(name)
+				if fi == nil {
+					fi = factsOf(fn)
+				}
+				construct := name + ": " + cal.Name()
+				key := keyArg(call)
+				var remotes []ssa.CallInstruction
+				for _, k := range callsIn(fn) {
+					kc, _ := calleeOf(k.Common())
+					if kc == nil || kc.Name() != rname || len(k.Common().Args) == 0 {
+						continue
+					}
+					if f, _ := loadedField(k.Common().Args[0]); sameVar(f, otherFld) {
+						remotes = append(remotes, k)
+					}
+				}
+				if len(remotes) == 0 {
+					c.Bad(rule, construct, p.Pos(call.Pos()), "the link is written on this side ("+cal.Name()+") but the opposite-side "+rname+" is never called here — the link would exist on one side only")
+					continue
+				}
+				isRemote := func(in ssa.Instruction) bool {
+					for _, r := range remotes {
+						if in == ssa.Instruction(r) {
+							return true
+						}
+					}
+					return false
+				}
+				ok, why := true, ""
+				// every possibly-successful continuation of the local write passes the remote write: a successful
+				// return, or the next iteration of the loop the write sits in
+				ri := reachWithoutFrom(fn, call, isRemote)
+				ei := errorResultIndex(fn.Signature)
+				for _, r := range returnsOf(fn) {
+					reach := ri.entryReach[r.Block()] || (r.Block() == call.Block() && instrIndex(r) > instrIndex(call))
+					if reach && (ei < 0 || ri.ReachesSuccess(r, ei)) {
+						if ei >= 0 && isHolderErrReturn(fi, r, ei) {
+							continue
+						}
+						ok, why = false, "a successful return at "+p.Pos(r.Pos())+" is reachable after the local write without the opposite-side "+rname
+					}
+				}
+				if l := innermostLoop(loops, call.Block()); l != nil && ri.entryReach[l.Header] {
+					ok, why = false, "the loop can go on to its next element after the local write without the opposite-side "+rname
+				}
+				// swapped arguments: what is the key on this side is the entity on the other side
+				if key == nil {
+					ok, why = false, "the local write has no key argument"
+				}
+				for _, r := range remotes {
+					ra := r.Common().Args
+					var ids []ssa.Value
+					for _, a := range ra[1:] {
+						if sl, isSl := a.Type().Underlying().(*types.Slice); isSl && types.Identical(sl.Elem(), types.Typ[types.Byte]) {
+							ids = append(ids, a)
+						}
+					}
+					if key != nil && (len(ids) < 2 || ids[0] != key || ids[1] == key) {
+						ok, why = false, "the opposite-side call does not receive (associated id, own id) in swapped order: the remote entity is looked up by the wrong id"
+					}
+				}
+				c.Check(ok, rule, construct, p.Pos(call.Pos()), "local write and opposite-side "+rname+" with swapped (id, key) on every successful continuation", why)
 			}
 		}
-		// swapped arguments: remote(tx, associatedId, id) vs params (tx, fieldBucket?, id, associatedId)
-		prm := fn.Params
-		idP, assocP := prm[len(prm)-2], prm[len(prm)-1]
-		if s.fn == "setLinkCount" {
-			idP, assocP = prm[len(prm)-3], prm[len(prm)-2]
-		}
-		ra := remote.Common().Args
-		if !(ra[2] == ssa.Value(assocP) && ra[3] == ssa.Value(idP)) {
-			ok, why = false, "the opposite-side call does not receive (associatedId, id) in swapped order"
-		}
-		// local write keyed by the associated id
-		la := local.Common().Args
-		if la[len(la)-1] != ssa.Value(assocP) && !(s.fn == "setLinkCount" && la[2] == ssa.Value(assocP)) {
-			ok, why = false, "the local write is not keyed by the associated id"
-		}
-		c.Check(ok, rule, name, p.Pos(fn.Pos()), "local write and opposite-side "+s.remote+" with swapped (id, key) on every successful path", why)
 	}
+	c.CallSites(n)
 	c.Floor(rule, 7)
 }
 
